@@ -126,7 +126,7 @@ TPickTrace ==
           /\ heap' = LoadD(DualJ(Traces[t].orig), 1)
     /\ oroot' = 1 /\ phase' = "ready" /\ l' = 1
     /\ last' = [a |-> "Load", side |-> "", id |-> 0]
-    /\ UNCHANGED <<croot, proto, stack, ret, status, nmut, nedit, otree, fired, hist, mi, verdict, vstep, lbad, mbad, mcopy>>
+    /\ UNCHANGED <<croot, proto, stack, status, nmut, nedit, otree, fired, hist, mi, verdict, vstep, lbad, mbad, mcopy>>
 
 TStart == /\ tid > 0 /\ StartCopy(T.proto)
           /\ UNCHANGED <<tid, l, mi, verdict, vstep, lbad, mbad, mcopy>>
